@@ -1067,7 +1067,7 @@ Proof.
       by (unfold k1; destruct (k_split k && negb (get_flag SplitTmp (partial k)) && phase_geb _ PSplitDone);
           [split; [apply inv_clean_temp; [exact I | reflexivity]|]; split;
            [apply rinv_clean_temp; [exact R | exact Hf | rewrite Hph; discriminate] | split; [exact Hf | reflexivity]]
-          | repeat split; assumption]);
+          | split; [exact I|]; split; [exact R|]; split; [exact Hf | reflexivity]]);
     destruct J1 as [I1 [R1 [F1 P1]]];
     set (k2 := if negb (get_flag ChunkTmp (partial k1)) && phase_geb (ph k1) PChunksDone
                then clean_temp ChunkTmp k1 (partial k1) else k1);
@@ -1075,7 +1075,7 @@ Proof.
       by (unfold k2; destruct (negb (get_flag ChunkTmp (partial k1)) && phase_geb (ph k1) PChunksDone);
           [split; [apply inv_clean_temp; [exact I1 | reflexivity]|]; split;
            [apply rinv_clean_temp; [exact R1 | exact F1 | rewrite P1, Hph; discriminate] | split; [exact F1 | exact P1]]
-          | repeat split; assumption]);
+          | split; [exact I1|]; split; [exact R1|]; split; [exact F1 | exact P1]]);
     destruct J2 as [I2 [R2 [F2 P2]]];
     set (k3 := if negb (get_flag JoinTmp (partial k2)) && phase_geb (ph k2) PJoinDone
                then clean_temp JoinTmp k2 (partial k2) else k2);
@@ -1083,7 +1083,7 @@ Proof.
       by (unfold k3; destruct (negb (get_flag JoinTmp (partial k2)) && phase_geb (ph k2) PJoinDone);
           [split; [apply inv_clean_temp; [exact I2 | reflexivity]|]; split;
            [apply rinv_clean_temp; [exact R2 | exact F2 | rewrite P2, Hph; discriminate] | split; [exact F2 | exact P2]]
-          | repeat split; assumption]);
+          | split; [exact I2|]; split; [exact R2|]; split; [exact F2 | exact P2]]);
     destruct J3 as [I3 [R3 [F3 P3]]];
     rewrite P3, Hph; try exact R3.
   set (dnl := filter (fun n => memN n dn) (dedupN (map fst (fp k3)))).
@@ -1100,4 +1100,428 @@ Proof.
   - destruct (is_strict m k4).
     + eapply rinv_kill_some; eassumption.
     + exact R4.
+Qed.
+
+Lemma rinv_set_ph : forall k p, rinv k -> p <> PRun -> rinv (set_ph k p).
+Proof. intros k p R H. rinv_fields R. intros E. contradiction. Qed.
+
+Lemma rinv_advance : forall dn m k, inv dn k -> rinv k -> rinv (advance m dn k).
+Proof.
+  intros dn m k I R. unfold advance. destruct (ph k) eqn:Hph.
+  - destruct (r_prun _ R Hph) as [Pn [Fn Rn]].
+    assert (R1 : rinv (set_ph k PSplitDone)) by (apply rinv_set_ph; [exact R | discriminate]).
+    destruct (is_volatile m k); [|exact R1].
+    replace (clean_temp SplitTmp (set_ph k PSplitDone) None)
+      with (clean_temp SplitTmp (set_ph k PSplitDone) (partial (set_ph k PSplitDone))) by (cbn; rewrite Pn; reflexivity).
+    apply rinv_clean_temp; [exact R1 | exact Fn | discriminate].
+  - apply rinv_set_ph; [exact R | discriminate].
+  - apply rinv_set_ph; [exact R | discriminate].
+  - destruct m; try (apply rinv_remove_empty; apply rinv_set_ph; [exact R | discriminate]).
+    apply rinv_remove_empty. apply rinv_set_ph; [|discriminate].
+    apply (rinv_partial_kill dn); [apply inv_cache; exact I | apply rinv_cache; exact R].
+  - exact R.
+Qed.
+
+Lemma rinv_restart : forall k, rinv k -> rinv (restart_fork k).
+Proof. intros k R. unfold restart_fork. rinv_fields R. intros es E. discriminate. Qed.
+
+Lemma rinv_clone : forall src files vals,
+  files_ok (k_split src) files vals = true -> rinv (fresh_clone src files vals).
+Proof.
+  intros src files vals Hok. apply files_ok_spec in Hok. destruct Hok as [A _].
+  unfold fresh_clone. constructor; unfold cur_report; cbn; auto.
+  - intros p Hp. contradiction.
+  - intros es E. discriminate.
+Qed.
+
+Lemma rinv_initial : forall k, static_ok k = true -> initial k -> rinv k.
+Proof.
+  intros k Hs [E1 [E2 [E3 [E4 [E5 [E6 E7]]]]]]. assert (W := static_ok_wf k Hs).
+  constructor; unfold cur_report; rewrite ?E3, ?E4, ?E5, ?E6, ?E7; cbn; auto.
+  - intros p Hp. contradiction.
+  - apply (wf_nodup _ W).
+  - intros es E. discriminate.
+Qed.
+
+Definition sinv2 (s : sys) : Prop :=
+  forall id k, In (id, k) (s_forks s) -> inv (s_done s) k /\ rinv k.
+
+Lemma step_sinv2 : forall s o, sinv2 s -> sinv2 (step s o).
+Proof.
+  intros s o S.
+  assert (S1 : sinv s) by (intros id k H; apply (S id k H)).
+  assert (S1' := step_sinv s o S1).
+  intros id k' H. split; [apply (S1' id k' H)|].
+  destruct o; cbn [step] in H.
+  - cbn in H. apply (S id k' H).
+  - cbn in H. apply upd_fork_In in H. destruct H as [k [A [ -> | -> ]]]; [apply (S id k A)|].
+    destruct (S id k A). apply (rinv_advance (s_done s)); assumption.
+  - cbn in H. apply upd_fork_In in H. destruct H as [k [A [ -> | -> ]]]; [apply (S id k A)|].
+    destruct (S id k A). destruct (ph k); try assumption. apply rinv_cache. assumption.
+  - cbn in H. apply upd_fork_In in H. destruct H as [k [A [ -> | -> ]]]; [apply (S id k A)|].
+    destruct (S id k A). apply (rinv_partial_kill (s_done s)); assumption.
+  - destruct (mode_disabled (s_mode s)); [apply (S id k' H)|].
+    destruct (sweep (s_mode s) (s_done s) (s_forks s)) as [l rs] eqn:E. cbn in H.
+    assert (H' : In (id, k') (fst (sweep (s_mode s) (s_done s) (s_forks s)))) by (rewrite E; exact H).
+    apply sweep_In in H'. destruct H' as [k [A ->]]. destruct (S id k A).
+    apply (rinv_partial_kill (s_done s)); assumption.
+  - destruct (get_fork src (s_forks s)) as [k|] eqn:G; [|apply (S id k' H)].
+    destruct (get_fork new (s_forks s)); [apply (S id k' H)|].
+    destruct (ph k); try apply (S id k' H).
+    destruct (files_ok (k_split k) files vals) eqn:F; [|apply (S id k' H)].
+    cbn in H. apply in_app_iff in H. destruct H as [H|[H|[]]]; [apply (S id k' H)|].
+    inversion H; subst. apply rinv_clone. exact F.
+  - cbn in H. apply in_map_iff in H. destruct H as [[j k] [E H]]. cbn in E. inversion E; subst.
+    apply rinv_restart. apply (S id k H).
+Qed.
+
+Lemma run_sinv2 : forall ops s, sinv2 s -> sinv2 (run s ops).
+Proof.
+  unfold run. induction ops as [|o ops IH]; intros s S; [exact S|]. cbn. apply IH. apply step_sinv2. exact S.
+Qed.
+
+Lemma init_sinv2 : forall s, init_ok s -> sinv2 s.
+Proof.
+  intros s [Hd Hf] id k H. rewrite Hd. destruct (Hf id k H) as [A B].
+  split; [apply inv_initial | apply rinv_initial]; assumption.
+Qed.
+
+(* every path listed in a fork's (partial or final) kill report is gone from the disk *)
+Theorem report_paths_removed : forall s ops, init_ok s ->
+  forall id k, In (id, k) (s_forks (run s ops)) ->
+  forall p, In p (r_paths (cur_report k)) -> forall f, In f (disk k) -> f_path f <> p.
+Proof.
+  intros s ops H id k Hin p Hp f Hf.
+  destruct (run_sinv2 ops s (init_sinv2 s H) id k Hin) as [I R].
+  destruct (r_paths_ok _ R p Hp) as [g [Hg <-]]. apply (i_disj _ _ I); assumption.
+Qed.
+
+(* the report's count and byte total are exactly what has left the disk, at
+   every moment, across partial reports, merges and restarts *)
+Theorem report_totals_exact : forall s ops, init_ok s ->
+  forall id k, In (id, k) (s_forks (run s ops)) ->
+  r_count (cur_report k) = count_files (removed k) /\ r_size (cur_report k) = sum_sizes (removed k).
+Proof.
+  intros s ops H id k Hin. destruct (run_sinv2 ops s (init_sinv2 s H) id k Hin) as [I R].
+  split; [apply (r_count_ok _ R) | apply (r_size_ok _ R)].
+Qed.
+
+(* every reported path is the path of a file this very fork wrote *)
+Theorem kill_paths_inside_stage_dirs : forall s ops, init_ok s ->
+  forall id k, In (id, k) (s_forks (run s ops)) ->
+  forall p, In p (r_paths (cur_report k)) -> exists f, In f (files0 k) /\ f_path f = p.
+Proof.
+  intros s ops H id k Hin p Hp. destruct (run_sinv2 ops s (init_sinv2 s H) id k Hin) as [I R].
+  destruct (r_paths_ok _ R p Hp) as [g [Hg E]]. exists g. split; [apply (i_rem _ _ I); exact Hg | exact E].
+Qed.
+
+(* only files of the fork ever leave its disk, each at most once *)
+Theorem removed_are_own_files : forall s ops, init_ok s ->
+  forall id k, In (id, k) (s_forks (run s ops)) ->
+  (forall f, In f (removed k) -> In f (files0 k)) /\ NoDup (map f_path (disk k)).
+Proof.
+  intros s ops H id k Hin. destruct (run_sinv2 ops s (init_sinv2 s H) id k Hin) as [I R].
+  split; [apply (i_rem _ _ I) | apply (r_disk_nodup _ R)].
+Qed.
+
+(* ================================================================== C14: reclamation *)
+Definition no_own (o : owner) (d : list file) : Prop := forall f, In f d -> f_own f <> o.
+Definition no_tmp (d : list file) : Prop := forall f, In f d -> is_tmp (f_own f) = false.
+
+Record tinv (k : fork) : Prop := {
+  t_flags : forall o, is_tmp o = true -> get_flag o (partial k) = true -> no_own o (disk k);
+  t_final : final k <> None -> no_tmp (disk k)
+}.
+
+Lemma no_own_incl : forall o d d', (forall f, In f d' -> In f d) -> no_own o d -> no_own o d'.
+Proof. intros o d d' H N f Hf. apply N. apply H. exact Hf. Qed.
+Lemma no_tmp_incl : forall d d', (forall f, In f d' -> In f d) -> no_tmp d -> no_tmp d'.
+Proof. intros d d' H N f Hf. apply N. apply H. exact Hf. Qed.
+
+Lemma disk_refresh : forall k, disk (refresh k) = disk k.
+Proof. intros k. unfold refresh, update_cache. destruct (fpm k); reflexivity. Qed.
+Lemma partial_refresh : forall k, partial (refresh k) = partial k.
+Proof. intros k. unfold refresh, update_cache. destruct (fpm k); reflexivity. Qed.
+
+Lemma tinv_same : forall k k', disk k' = disk k -> partial k' = partial k -> final k' = final k -> tinv k -> tinv k'.
+Proof. intros k k' E1 E2 E3 T. destruct T. constructor; rewrite ?E1, ?E2, ?E3; assumption. Qed.
+
+Lemma clean_temp_disk_incl : forall o k p f, In f (disk (clean_temp o k p)) -> In f (disk k).
+Proof. intros o k p f H. cbn in H. apply rm_paths_In in H. tauto. Qed.
+
+Lemma clean_temp_no_own : forall o k p, no_own o (disk (clean_temp o k p)).
+Proof.
+  intros o k p f H. cbn in H. apply rm_paths_In in H. destruct H as [H1 H2]. intros E. apply H2.
+  apply in_map. apply filter_In. split; [exact H1|]. apply owner_eqb_eq. exact E.
+Qed.
+
+Lemma get_flag_clean : forall o o' k p,
+  get_flag o' (partial (clean_temp o k p)) = true -> o' = o \/ get_flag o' p = true \/ is_tmp o' = false \/ is_tmp o = false.
+Proof.
+  intros o o' k p H. cbn in H. destruct o, o', p as [p|]; cbn in *; auto; try discriminate.
+Qed.
+
+Lemma tinv_clean_temp : forall o k, tinv k -> final k = None -> is_tmp o = true -> tinv (clean_temp o k (partial k)).
+Proof.
+  intros o k T Hf Ho. constructor.
+  - intros o' Ho' Hfl. destruct (get_flag_clean o o' k (partial k) Hfl) as [->|[H|[H|H]]]; try congruence.
+    + apply clean_temp_no_own.
+    + eapply no_own_incl; [apply clean_temp_disk_incl | apply (t_flags _ T o' Ho' H)].
+  - intros H. cbn in H. congruence.
+Qed.
+
+Lemma killed_some_disk_incl : forall k f, In f (disk (killed_some k)) -> In f (disk k).
+Proof. intros k f H. cbn in H. apply rm_paths_In in H. tauto. Qed.
+
+Lemma kill_some_disk_incl : forall m k d f, In f (disk (fst (fst (kill_some m k d)))) -> In f (disk k).
+Proof.
+  intros m k d f H. destruct (kill_some_shape m k d) as [E|[[r E]|[p [f' [E _]]]]]; rewrite E in H; cbn in H.
+  - rewrite disk_refresh in H. exact H.
+  - rewrite disk_refresh in H. exact H.
+  - apply rm_paths_In in H. destruct H as [H _]. rewrite disk_refresh in H. exact H.
+Qed.
+
+Lemma full_kill_disk_incl : forall m k f, In f (disk (fst (full_kill m k))) -> In f (disk k).
+Proof.
+  intros m k f H. unfold full_kill in H. destruct (mode_disabled m); [exact H|].
+  destruct (final k); [exact H|]. destruct (is_volatile m k).
+  - assert (G := kill_some_disk_incl m k true f). destruct (kill_some m k true) as [[k' r] b]. apply G. exact H.
+  - cbn in H. apply rm_paths_In in H. tauto.
+Qed.
+
+(* once nothing temporary is left, the kills keep it so and may set the final report *)
+Lemma tinv_kill_some : forall m k d, tinv k -> no_tmp (disk k) -> tinv (fst (fst (kill_some m k d))).
+Proof.
+  intros m k d T N. constructor.
+  - intros o Ho Hfl f Hf E. assert (Hd := kill_some_disk_incl m k d f Hf). assert (X := N f Hd).
+    rewrite E, Ho in X. discriminate.
+  - intros _. eapply no_tmp_incl; [apply kill_some_disk_incl | exact N].
+Qed.
+
+Lemma tinv_full_kill : forall m k, tinv k -> no_tmp (disk k) -> tinv (fst (full_kill m k)).
+Proof.
+  intros m k T N. constructor.
+  - intros o Ho Hfl f Hf E. assert (Hd := full_kill_disk_incl m k f Hf). assert (X := N f Hd).
+    rewrite E, Ho in X. discriminate.
+  - intros _. eapply no_tmp_incl; [apply full_kill_disk_incl | exact N].
+Qed.
+
+Lemma clean_step : forall o k, tinv k -> final k = None -> is_tmp o = true ->
+  let k' := if negb (get_flag o (partial k)) then clean_temp o k (partial k) else k in
+  tinv k' /\ final k' = None /\ ph k' = ph k /\ (forall f, In f (disk k') -> In f (disk k)) /\ no_own o (disk k').
+Proof.
+  intros o k T Hf Ho. cbv zeta. destruct (get_flag o (partial k)) eqn:Hfl; cbn [negb].
+  - split; [exact T|]. split; [exact Hf|]. split; [reflexivity|]. split; [auto|]. apply (t_flags _ T o Ho Hfl).
+  - split; [apply tinv_clean_temp; assumption|]. split; [exact Hf|]. split; [reflexivity|].
+    split; [apply clean_temp_disk_incl | apply clean_temp_no_own].
+Qed.
+
+(* the state after the three clean-up steps of partialVdrKill on a complete fork *)
+Lemma partial_kill_complete : forall dn m k,
+  inv dn k -> tinv k -> ph k = PComplete ->
+  tinv (fst (fst (partial_kill m dn k))) /\ no_tmp (disk (fst (fst (partial_kill m dn k)))).
+Proof.
+  intros dn m k I T Hph. unfold partial_kill. destruct (final k) as [r|] eqn:Hf.
+  { split; [exact T|]. apply (t_final _ T). rewrite Hf. discriminate. }
+  rewrite Hph. unfold phase_geb. cbn [phase_idx].
+  change (1 <=? 4) with true. rewrite andb_true_r.
+  set (k1 := if k_split k && negb (get_flag SplitTmp (partial k)) then clean_temp SplitTmp k (partial k) else k).
+  assert (J1 : tinv k1 /\ final k1 = None /\ ph k1 = ph k /\ (forall f, In f (disk k1) -> In f (disk k)) /\
+               no_own SplitTmp (disk k1)).
+  { unfold k1. destruct (k_split k) eqn:Hs; cbn [andb].
+    - apply clean_step; auto.
+    - split; [exact T|]. split; [exact Hf|]. split; [reflexivity|]. split; [auto|].
+      intros f Hf'. apply (wf_nosplit _ (i_wf _ _ I) Hs). apply (i_disk _ _ I). exact Hf'. }
+  destruct J1 as [T1 [F1 [P1 [D1 N1]]]]. rewrite P1, Hph. cbn [phase_idx]. change (2 <=? 4) with true. rewrite andb_true_r.
+  destruct (clean_step ChunkTmp k1 T1 F1 eq_refl) as [T2 [F2 [P2 [D2 N2]]]].
+  set (k2 := if negb (get_flag ChunkTmp (partial k1)) then clean_temp ChunkTmp k1 (partial k1) else k1) in *.
+  rewrite P2, P1, Hph. cbn [phase_idx]. change (3 <=? 4) with true. rewrite andb_true_r.
+  destruct (clean_step JoinTmp k2 T2 F2 eq_refl) as [T3 [F3 [P3 [D3 N3]]]].
+  set (k3 := if negb (get_flag JoinTmp (partial k2)) then clean_temp JoinTmp k2 (partial k2) else k2) in *.
+  rewrite P3, P2, P1, Hph.
+  assert (NT : no_tmp (disk k3)).
+  { intros f Hf'. assert (A := N3 f Hf'). assert (B := N2 f (D3 f Hf')). assert (C := N1 f (D2 f (D3 f Hf'))).
+    destruct (f_own f); try reflexivity; congruence. }
+  set (k4 := set_books k3 _).
+  assert (T4 : tinv k4) by (apply (tinv_same k3); auto).
+  assert (NT4 : no_tmp (disk k4)) by exact NT.
+  destruct (is_nil (fp k4)).
+  - destruct (is_strict m k4).
+    + split; [apply tinv_kill_some; assumption|]. eapply no_tmp_incl; [apply kill_some_disk_incl | exact NT4].
+    + assert (A := tinv_full_kill m k4 T4 NT4). assert (B := full_kill_disk_incl m k4).
+      destruct (full_kill m k4) as [k5 r5]. cbn [fst] in *. split; [exact A|]. eapply no_tmp_incl; [exact B | exact NT4].
+  - destruct (is_strict m k4).
+    + split; [apply tinv_kill_some; assumption|]. eapply no_tmp_incl; [apply kill_some_disk_incl | exact NT4].
+    + split; assumption.
+Qed.
+
+Lemma tinv_cond_clean : forall (c : bool) o k, tinv k -> final k = None -> is_tmp o = true ->
+  let k' := if c then clean_temp o k (partial k) else k in
+  tinv k' /\ final k' = None /\ ph k' = ph k.
+Proof.
+  intros c o k T Hf Ho. cbv zeta. destruct c.
+  - split; [apply tinv_clean_temp; assumption|]. split; [exact Hf | reflexivity].
+  - split; [exact T|]. split; [exact Hf | reflexivity].
+Qed.
+
+Lemma tinv_partial_kill : forall dn m k, inv dn k -> tinv k -> tinv (fst (fst (partial_kill m dn k))).
+Proof.
+  intros dn m k I T. destruct (ph k) eqn:Hph; [rewrite partial_kill_prun; assumption| | | |
+    apply (partial_kill_complete dn m k I T Hph)];
+  unfold partial_kill; (destruct (final k) as [r|] eqn:Hf; [exact T|]).
+  all: match goal with |- context [if ?c then clean_temp SplitTmp ?x (partial ?x) else ?x] =>
+         destruct (tinv_cond_clean c SplitTmp x T Hf eq_refl) as [T1 [F1 P1]];
+         set (k1 := if c then clean_temp SplitTmp x (partial x) else x) in * end;
+       match goal with |- context [if ?c then clean_temp ChunkTmp ?x (partial ?x) else ?x] =>
+         destruct (tinv_cond_clean c ChunkTmp x T1 F1 eq_refl) as [T2 [F2 P2]];
+         set (k2 := if c then clean_temp ChunkTmp x (partial x) else x) in * end;
+       match goal with |- context [if ?c then clean_temp JoinTmp ?x (partial ?x) else ?x] =>
+         destruct (tinv_cond_clean c JoinTmp x T2 F2 eq_refl) as [T3 [F3 P3]];
+         set (k3 := if c then clean_temp JoinTmp x (partial x) else x) in * end;
+       rewrite P3, P2, P1, Hph; exact T3.
+Qed.
+
+Lemma tinv_set_books : forall k b, tinv k -> tinv (set_books k b).
+Proof. intros k b T. apply (tinv_same k); auto. Qed.
+Lemma tinv_set_ph : forall k p, tinv k -> tinv (set_ph k p).
+Proof. intros k p T. apply (tinv_same k); auto. Qed.
+Lemma tinv_cache : forall k, tinv k -> tinv (cache k).
+Proof. intros k T. apply (tinv_same k); auto. Qed.
+
+Lemma tinv_advance : forall dn m k, inv dn k -> rinv k -> tinv k -> tinv (advance m dn k).
+Proof.
+  intros dn m k I R T. unfold advance. destruct (ph k) eqn:Hph.
+  - destruct (r_prun _ R Hph) as [Pn [Fn Rn]].
+    destruct (is_volatile m k); [|apply tinv_set_ph; exact T].
+    replace (clean_temp SplitTmp (set_ph k PSplitDone) None)
+      with (clean_temp SplitTmp (set_ph k PSplitDone) (partial (set_ph k PSplitDone))) by (cbn; rewrite Pn; reflexivity).
+    apply tinv_clean_temp; [apply tinv_set_ph; exact T | exact Fn | reflexivity].
+  - apply tinv_set_ph; exact T.
+  - apply tinv_set_ph; exact T.
+  - destruct m; try (unfold remove_empty; apply tinv_set_books; apply tinv_set_ph; exact T).
+    unfold remove_empty. apply tinv_set_books. apply tinv_set_ph.
+    apply (tinv_partial_kill dn); [apply inv_cache; exact I | apply tinv_cache; exact T].
+  - exact T.
+Qed.
+
+Lemma tinv_initial : forall k, initial k -> tinv k.
+Proof.
+  intros k [E1 [E2 [E3 [E4 [E5 [E6 E7]]]]]]. constructor; rewrite ?E6, ?E7.
+  - intros o _ H. discriminate.
+  - intros H. contradiction.
+Qed.
+
+Definition sinv3 (s : sys) : Prop :=
+  forall id k, In (id, k) (s_forks s) -> inv (s_done s) k /\ rinv k /\ tinv k.
+
+Lemma step_sinv3 : forall s o, sinv3 s -> sinv3 (step s o).
+Proof.
+  intros s o S.
+  assert (S2 : sinv2 s) by (intros id k H; destruct (S id k H) as [A [B C]]; split; assumption).
+  assert (S2' := step_sinv2 s o S2).
+  intros id k' H. destruct (S2' id k' H) as [A B]. split; [exact A|]. split; [exact B|]. clear A B.
+  destruct o; cbn [step] in H.
+  - cbn in H. apply (S id k' H).
+  - cbn in H. apply upd_fork_In in H. destruct H as [k [A [ -> | -> ]]]; [apply (S id k A)|].
+    destruct (S id k A) as [X [Y Z]]. apply (tinv_advance (s_done s)); assumption.
+  - cbn in H. apply upd_fork_In in H. destruct H as [k [A [ -> | -> ]]]; [apply (S id k A)|].
+    destruct (S id k A) as [X [Y Z]]. destruct (ph k); try assumption. apply tinv_cache. assumption.
+  - cbn in H. apply upd_fork_In in H. destruct H as [k [A [ -> | -> ]]]; [apply (S id k A)|].
+    destruct (S id k A) as [X [Y Z]]. apply (tinv_partial_kill (s_done s)); assumption.
+  - destruct (mode_disabled (s_mode s)); [apply (S id k' H)|].
+    destruct (sweep (s_mode s) (s_done s) (s_forks s)) as [l rs] eqn:E. cbn in H.
+    assert (H' : In (id, k') (fst (sweep (s_mode s) (s_done s) (s_forks s)))) by (rewrite E; exact H).
+    apply sweep_In in H'. destruct H' as [k [A ->]]. destruct (S id k A) as [X [Y Z]].
+    apply (tinv_partial_kill (s_done s)); assumption.
+  - destruct (get_fork src (s_forks s)) as [k|] eqn:G; [|apply (S id k' H)].
+    destruct (get_fork new (s_forks s)); [apply (S id k' H)|].
+    destruct (ph k); try apply (S id k' H).
+    destruct (files_ok (k_split k) files vals) eqn:F; [|apply (S id k' H)].
+    cbn in H. apply in_app_iff in H. destruct H as [H|[H|[]]]; [apply (S id k' H)|].
+    inversion H; subst. constructor; cbn; [intros o _ X; discriminate | intros X; contradiction].
+  - cbn in H. apply in_map_iff in H. destruct H as [[j k] [E H]]. cbn in E. inversion E; subst.
+    destruct (S id k H) as [X [Y Z]]. apply (tinv_same k); auto.
+Qed.
+
+Lemma run_sinv3 : forall ops s, sinv3 s -> sinv3 (run s ops).
+Proof.
+  unfold run. induction ops as [|o ops IH]; intros s S; [exact S|]. cbn. apply IH. apply step_sinv3. exact S.
+Qed.
+
+Lemma init_sinv3 : forall s, init_ok s -> sinv3 s.
+Proof.
+  intros s [Hd Hf] id k H. rewrite Hd. destruct (Hf id k H) as [A B].
+  split; [apply inv_initial | split; [apply rinv_initial | apply tinv_initial]]; assumption.
+Qed.
+
+(* temp_gone: after a partialVdrKill of a complete fork - in particular after
+   the final sweep - none of its temporary files is left, in every mode *)
+Theorem temp_gone : forall s ops, init_ok s ->
+  forall id k, In (id, k) (s_forks (run s ops)) -> ph k = PComplete ->
+  forall f, In f (disk (fst (fst (partial_kill (s_mode (run s ops)) (s_done (run s ops)) k)))) ->
+  is_tmp (f_own f) = false.
+Proof.
+  intros s ops H id k Hin Hph. destruct (run_sinv3 ops s (init_sinv3 s H) id k Hin) as [I [R T]].
+  apply (partial_kill_complete _ _ k I T Hph).
+Qed.
+
+(* ... and once a fork has its final report, no temporary file is left for good *)
+Theorem temp_gone_final : forall s ops, init_ok s ->
+  forall id k, In (id, k) (s_forks (run s ops)) -> final k <> None ->
+  forall f, In f (disk k) -> is_tmp (f_own f) = false.
+Proof.
+  intros s ops H id k Hin Hf. destruct (run_sinv3 ops s (init_sinv3 s H) id k Hin) as [I [R T]].
+  apply (t_final _ T Hf).
+Qed.
+
+(* the final sweep applies partialVdrKill to every fork *)
+Theorem final_sweep_is_partial_kill : forall s, mode_disabled (s_mode s) = false ->
+  forall id k', In (id, k') (s_forks (step s FinalSweep)) ->
+  exists k, In (id, k) (s_forks s) /\ k' = fst (fst (partial_kill (s_mode s) (s_done s) k)).
+Proof.
+  intros s Hm id k' H. cbn [step] in H. rewrite Hm in H.
+  destruct (sweep (s_mode s) (s_done s) (s_forks s)) as [l rs] eqn:E. cbn in H.
+  apply sweep_In. rewrite E. exact H.
+Qed.
+
+(* ---- reclamation of chunk files and of unreferenced files: the mechanism,
+   stated on the kill functions themselves (see Properties/C14.v for what is
+   not proved about them) *)
+Lemma chunk_files_gone_partial : forall m k,
+  mode_disabled m = false -> final k = None -> is_volatile m k = false -> k_split k = true ->
+  forall f, In f (disk (fst (full_kill m k))) -> f_own f <> ChunkFiles.
+Proof.
+  intros m k Hm Hf Hv Hs f H E. unfold full_kill in H. rewrite Hm, Hf, Hv, Hs in H. cbn in H.
+  apply rm_paths_In in H. destruct H as [H1 H2]. apply H2. apply in_map. apply filter_In.
+  split; [exact H1 | apply owner_eqb_eq; exact E].
+Qed.
+
+Lemma volatile_unreferenced_gone_partial : forall m k d,
+  mode_disabled m = false -> fpm k = None ->
+  forall f, In f (disk (fst (fst (kill_some m k d)))) -> is_tmp (f_own f) = false ->
+  exists a, In a (f_names f) /\ has_key a (fa k) = true.
+Proof.
+  intros m k d Hm Hfpm f H Ht. unfold kill_some in H. rewrite Hfpm, Hm in H. cbv zeta in H.
+  change (fpm (cache k)) with (Some (cache_entries k)) in H.
+  set (es := cache_entries k) in *.
+  assert (Hent : In f (disk k) -> In (f, filter (fun a => has_key a (fa k)) (f_names f)) es).
+  { intros Hd. apply cache_entries_In. auto. }
+  assert (Hnonnil : forall args, In (f, args) es -> args <> [] -> exists a, In a (f_names f) /\ has_key a (fa k) = true).
+  { intros args Hin Hn. apply cache_entries_In in Hin. destruct Hin as [_ [_ ->]].
+    destruct (filter (fun a => has_key a (fa k)) (f_names f)) as [|a l] eqn:E; [contradiction|].
+    assert (Ha : In a (filter (fun a => has_key a (fa k)) (f_names f))) by (rewrite E; left; reflexivity).
+    apply filter_In in Ha. exists a. exact Ha. }
+  destruct (is_nil (filter (fun e => is_nil (snd e)) es)) eqn:Ek.
+  - (* nothing to kill: every entry has arguments *)
+    assert (Hd : In f (disk k)) by (destruct d; exact H).
+    apply (Hnonnil _ (Hent Hd)). intros En.
+    apply is_nil_true in Ek. assert (X : In (f, filter (fun a => has_key a (fa k)) (f_names f)) (filter (fun e => is_nil (snd e)) es)).
+    { apply filter_In. split; [apply Hent; exact Hd|]. cbn. rewrite En. reflexivity. }
+    rewrite Ek in X. contradiction.
+  - assert (Hd : In f (rm_paths (map f_path (map fst (filter (fun e => is_nil (snd e)) es))) (disk k))).
+    { destruct (is_nil (filter (fun e => negb (is_nil (snd e))) es) || d || is_nil (fp (cache k))); exact H. }
+    apply rm_paths_In in Hd. destruct Hd as [Hd Hp].
+    apply (Hnonnil _ (Hent Hd)). intros En. apply Hp. apply in_map. apply in_map_iff.
+    exists (f, filter (fun a => has_key a (fa k)) (f_names f)). split; [reflexivity|].
+    apply filter_In. split; [apply Hent; exact Hd|]. cbn. rewrite En. reflexivity.
 Qed.
